@@ -38,7 +38,9 @@ def run(ctx):
         ctx.case(repr(m), len(faults.ref_sites(m)) > 0)
         ctx.count("references_in_messages", len(faults.ref_sites(m)))
         if i < n_f:
-            for sig, fm, want in faults.reference_faults(m, ctx.rng):
+            # 'each UUID denotes one object': a UUID defined twice (siblings, any two nodes, three nodes, a node and its ancestor)
+            dups = [f for f in faults.structural_faults(m, ctx.rng, enums) if f[0].startswith(("dup-", "triple-"))]
+            for sig, fm, want in faults.reference_faults(m, ctx.rng) + dups:
                 r = protocheck.reader_stream(ctx, g, batch, fm, "F%d:%s" % (i, sig), expect_coherent=False)
                 nfaults += 1
                 ctx.count("fault:" + sig.split(":")[0])
